@@ -55,6 +55,9 @@ struct FnDir {
     /// (`match opt { Some(p) => body, None => None }` / `match opt { Some(v) => Some(v), None => body }`):
     /// for closures that capture `&mut` state, which Verus rejects
     inline_option: bool,
+    /// `@@inline_option map`: also `opt.map(|p| body)` -> `match opt { Some(p) => Some(body), None => None }`
+    /// (opt-in: `.map` is also a method of `Result` and of iterators, where the match would not type-check)
+    inline_option_map: bool,
     /// `@@tail name`: the tail expression of the function is bound (`let name = <tail>;`), the
     /// `@@post` text follows, then `name` is the new tail — so that proof text can follow the result
     tail: Option<String>,
@@ -322,7 +325,7 @@ fn parse_template(path: &Path, nodes: &mut Vec<Node>) {
                         }
                         "viter" => d.viter = true,
                         "inline_or_insert_with" => d.inline_entry = true,
-                        "inline_option" => d.inline_option = true,
+                        "inline_option" => { d.inline_option = true; if rest.split_whitespace().any(|w| w == "map") { d.inline_option_map = true; } }
                         "inline_then" => d.inline_then.push(rest.parse().unwrap_or_else(|_| die(&format!("{sctx}: @@inline_then needs closure ordinal")))),
                         "from" => d.from = Some(rest),
                         "to" => d.to = Some(rest),
@@ -970,6 +973,23 @@ impl<'a, 'ast> Visit<'ast> for Ed<'a> {
                     self.visit_expr(&e.receiver);
                     self.visit_expr(&cd.body);
                     self.visit_expr(&cf.body);
+                    return;
+                }
+            }
+        }
+        if self.dir.inline_option_map && e.method == "map" && e.args.len() == 1 {
+            if let syn::Expr::Closure(c) = &e.args[0] {
+                if c.inputs.len() == 1 {
+                    self.closure_idx += 1;
+                    let rs = e.receiver.span().byte_range();
+                    let es = e.span().byte_range();
+                    let bs = c.body.span().byte_range();
+                    let pat = self.src[c.inputs[0].span().byte_range()].to_string();
+                    self.push(rs.start, rs.start, "(match ", "E22-option-combinator-inlined", false);
+                    self.push(rs.end, bs.start, format!(" {{ Some({pat}) => Some("), "E22-option-combinator-inlined", true);
+                    self.push(bs.end, es.end, "), None => None })", "E22-option-combinator-inlined", true);
+                    self.visit_expr(&e.receiver);
+                    self.visit_expr(&c.body);
                     return;
                 }
             }
@@ -2453,7 +2473,7 @@ fn main() {
                 output.push_str(&text);
                 fn_maps.push(serde_json::json!({
                     "selector": d.selector, "file": d.file, "slice": d.is_slice,
-                    "name": if d.hoist.is_some() && !hoist_name.is_empty() { hoist_name.clone() } else { d.name.clone().unwrap_or_else(|| f.sig.ident.to_string()) },
+                    "name": if d.is_slice && !last_text_fn.is_empty() { last_text_fn.clone() } else if d.hoist.is_some() && !hoist_name.is_empty() { hoist_name.clone() } else { d.name.clone().unwrap_or_else(|| f.sig.ident.to_string()) },
                     "src_lines": [line_of(&src.text, src_range.0), line_of(&src.text, src_range.1)],
                     "out_lines": [l0, cur_line(&output)],
                     "awaits_erased": ed.awaits,
